@@ -6,8 +6,14 @@ use crate::fleet::{
 };
 use crate::message::Message;
 use serde_json::Value;
+#[cfg(repe_verif)]
+use crate::verif_seam::collections::{BTreeSet, HashMap, HashSet};
+#[cfg(repe_verif)]
+use crate::verif_seam::time::Instant;
+#[cfg(not(repe_verif))]
 use std::collections::{BTreeSet, HashMap, HashSet};
 use std::sync::Arc;
+#[cfg(not(repe_verif))]
 use std::time::Instant;
 use tokio::sync::{Mutex, RwLock};
 
